@@ -13,6 +13,7 @@ import (
 	"go/token"
 	"go/types"
 	"os"
+	"sort"
 	"strings"
 
 	"golang.org/x/tools/go/ssa"
@@ -1722,12 +1723,59 @@ func (fc *FC) gatedReturns(b *ssa.BasicBlock, depth int, leaf func(*ssa.Return) 
 				}
 			}
 		}
-		if len(exits) != 1 {
-			return nil
+		if len(exits) > 1 {
+			// several exit targets (a return or panic from inside the loop besides its normal
+			// continuation): the value is gated over the exit taken by the final iteration, the
+			// conditions read at that iteration's loop-carried values. Exits that only panic
+			// contribute no value.
+			var idxs []int
+			for i := range exits {
+				idxs = append(idxs, i)
+			}
+			sort.Ints(idxs)
+			type ev struct {
+				cond, val *RF
+			}
+			var evs []ev
+			for _, i := range idxs {
+				e := exits[i]
+				v := fc.gatedReturns(e, depth+1, leaf)
+				if v == nil {
+					return nil
+				}
+				v = fc.resolveExitPhis(outer, e, v)
+				if s.isBottom(v) {
+					continue
+				}
+				c := fc.exitCond(outer, e)
+				if c == nil {
+					return nil
+				}
+				evs = append(evs, ev{c, v})
+			}
+			switch len(evs) {
+			case 0:
+				return s.Bottom()
+			case 1:
+				return evs[0].val
+			}
+			// the final iteration takes exactly one exit, so the last condition of the chain is
+			// implied; gate on the simplest conditions (fewest atoms), leaving the most involved implied
+			sort.SliceStable(evs, func(i, j int) bool { return len(evs[i].cond.Atoms(true)) < len(evs[j].cond.Atoms(true)) })
+			acc := evs[len(evs)-1].val
+			for k := len(evs) - 2; k >= 0; k-- {
+				acc = fc.gateTuple(evs[k].cond, evs[k].val, acc)
+			}
+			return acc
 		}
 		for _, e := range exits {
-			return fc.gatedReturns(e, depth+1, leaf)
+			v := fc.gatedReturns(e, depth+1, leaf)
+			if v == nil {
+				return nil
+			}
+			return fc.resolveExitPhis(outer, e, v)
 		}
+		return nil
 	}
 	last := b.Instrs[len(b.Instrs)-1]
 	switch t := last.(type) {
@@ -1788,6 +1836,111 @@ func (fc *FC) gatedReturns(b *ssa.BasicBlock, depth int, leaf func(*ssa.Return) 
 		return s.Ite(fc.Val(t.Cond), tv, fv)
 	}
 	return nil
+}
+
+// exitCond: the condition, within one iteration of loop l (at its loop-carried
+// values), under which the iteration leaves the loop to target e; nil when the
+// loop body is not loop-free.
+func (fc *FC) exitCond(l *Loop, e *ssa.BasicBlock) (c *RF) {
+	defer func() {
+		if rec := recover(); rec != nil {
+			if _, ok := rec.(anchorErr); ok {
+				c = nil
+				return
+			}
+			panic(rec)
+		}
+	}()
+	s := fc.X.S
+	acc := s.False()
+	for _, p := range fc.Ctx.LivePreds(e) {
+		if !l.Body[p.Index] {
+			// an exit reached through the body of a break: the edge into that body
+			found := false
+			q := p
+			for n := 0; n < 8 && !found; n++ {
+				ps := fc.Ctx.LivePreds(q)
+				if len(ps) != 1 {
+					break
+				}
+				if l.Body[ps[0].Index] {
+					acc = s.Or(acc, s.And(fc.ReachCondFrom(l.Header, ps[0]), fc.edgeCond(ps[0], q)))
+					found = true
+				}
+				q = ps[0]
+			}
+			continue
+		}
+		acc = s.Or(acc, s.And(fc.ReachCondFrom(l.Header, p), fc.edgeCond(p, e)))
+	}
+	return acc
+}
+
+// resolveExitPhis: v was computed from block e, reached by leaving loop l. A
+// value merged at e (a phi the extractor could not gate, because e joins the
+// exits of several loops or branches) is, on this path, the value carried by
+// the edges out of l — when they all carry the same one.
+func (fc *FC) resolveExitPhis(l *Loop, e *ssa.BasicBlock, v *RF) *RF {
+	fromLoop := func(p *ssa.BasicBlock) bool {
+		for n := 0; n < 8; n++ {
+			if l.Body[p.Index] {
+				return true
+			}
+			ps := fc.Ctx.LivePreds(p)
+			if len(ps) != 1 {
+				return false
+			}
+			p = ps[0]
+		}
+		return false
+	}
+	sub := map[AtomID]*RF{}
+	for _, in := range e.Instrs {
+		ph, ok := in.(*ssa.Phi)
+		if !ok {
+			break
+		}
+		pv := fc.Val(ph)
+		at := pv.SingleAtom()
+		if at == nil || fc.X.phiOf[at.ID] != ph {
+			continue
+		}
+		vals, preds := fc.Ctx.PhiLiveEdges(ph)
+		var common *RF
+		same, any := true, false
+		for k, pr := range preds {
+			if !fromLoop(pr) {
+				continue
+			}
+			any = true
+			ev := fc.Val(vals[k])
+			if common != nil && !common.Equal(ev) {
+				same = false
+			}
+			common = ev
+		}
+		if any && same && common != nil {
+			sub[at.ID] = common
+		}
+	}
+	if len(sub) == 0 {
+		return v
+	}
+	return v.Subst(sub)
+}
+
+// gateTuple: ite(c, a, b), component-wise on tuples.
+func (fc *FC) gateTuple(c, a, b *RF) *RF {
+	s := fc.X.S
+	ta, fa := a.SingleAtom(), b.SingleAtom()
+	if ta != nil && fa != nil && ta.Name == "tuple" && fa.Name == "tuple" && len(ta.Args) == len(fa.Args) {
+		rs := make([]*RF, len(ta.Args))
+		for i := range rs {
+			rs[i] = s.Ite(c, ta.Args[i], fa.Args[i])
+		}
+		return s.MakeFn("tuple", rs...)
+	}
+	return s.Ite(c, a, b)
 }
 
 // BoundCallees: this context followed by contexts of the module functions it
